@@ -42,6 +42,8 @@ def prove_function(book, c, tier):
         out["out_of_subset"] = str(e)
         return out, [], ex
     except (KeyError, AttributeError, TypeError, IndexError, z3.Z3Exception) as e:
+        if os.environ.get("PYVC_DEBUG"):
+            raise
         out["obligations"].append({"name": c.qualname + "/in-subset", "status": "undecided",
                                    "reason": "STALE-CONTRACT or engine limit: %s: %s | %s" % (type(e).__name__, e, traceback.format_exc(limit=3).replace("\n", " | ")[-600:])})
         return out, [], ex
